@@ -129,6 +129,15 @@ theorem mergeTaskfile_adds {t1 t2 t1' : Taskfile} {inc : Include} (h : mergeTask
   obtain ⟨e1, e2, e3, _⟩ := core_fields hc
   exact ⟨t', ht ▸ hm', e1.trans (mergeOne_name _ _ _), e2.trans (mergeOne_cmds _ _ _), e3.trans (mergeOne_deps _ _ _)⟩
 
+/-- the same for a child whose file-level defaults have been given to its tasks first
+(`Taskfile.bake`): baking touches the attribute record only — names, commands and
+dependencies are the definition's -/
+theorem mergeTaskfile_adds_baked {t1 t2 t1' : Taskfile} {inc : Include} (h : mergeTaskfile t1 t2.bake inc = .ok t1')
+    {t : Task} (hm : t ∈ t2.tasks) (hx : t.name ∉ inc.excludes) :
+    HasDef t1' (renName inc t.name) (renCmds inc t.cmds) (renRefs inc t.deps) := by
+  have hb : bakeTask t2.defaults t ∈ t2.bake.tasks := List.mem_map.mpr ⟨t, hm, rfl⟩
+  exact mergeTaskfile_adds (t := bakeTask t2.defaults t) h hb hx
+
 /-! ### the store -/
 
 theorem Store.get_set (st : Store) (v w : Nat) (tf : Taskfile) :
@@ -200,7 +209,7 @@ theorem mergeIncs_spec (src dst : Nat) (hne : src ≠ dst) (incs : List Include)
           rw [h2] at hd; cases hd
           simp only [List.mem_cons] at hi
           rcases hi with rfl | hi
-          · have : HasDef t1' (renName i t.name) (renCmds i t.cmds) (renRefs i t.deps) := mergeTaskfile_adds hm ht hx
+          · have : HasDef t1' (renName i t.name) (renCmds i t.cmds) (renRefs i t.deps) := mergeTaskfile_adds_baked hm ht hx
             exact ihm src t1' _ _ _ (by rw [hget]; simp) this
           · exact ihs i hi t2 hdst t ht hx
       · cases h
